@@ -312,7 +312,7 @@ def run(ctx):
     infl = [(c, n, 5) for n, c in enumerate(cases) if any(r[4] and r[0] >= 1 and r[1] <= 1 for r in c["rows"])]
     infl = infl[:24] if quick else infl[:400]
     pmap(ctx, replay_inflated, infl, chunk=2)
-    if not ctx.notes.get("inflated_calls"):
+    if not ctx.notes.get("inflated_calls") and not ctx.violations:
         raise MachineryError("the pre-binned path was never exercised")
     n_hist, n_cloud = (60, 30) if quick else (600, 300)
     recs = [record_history(ctx.rng, tid) for tid in range(1, n_hist + 1)]
